@@ -234,7 +234,9 @@ func runC13(r *Report, rng *rand.Rand, thorough bool) {
 				}
 				id := fmt.Sprintf("%s/%d/%s", o.id, s, ct)
 				scenarios = append(scenarios, map[string]any{"id": id, "pkg": pkg, "opts": map[string]any{"short_circuit": -1, "strict_short_circuit": -1},
-					"parse": map[string]any{"fn": "Parse" + opName(o.id) + "Response", "status": s, "content_type": ct, "body": rpBody(classOf(ct)), "framing": []string{"length", "chunked"}[rng.Intn(2)]}})
+					"parse": map[string]any{"fn": "Parse" + opName(o.id) + "Response", "status": s, "content_type": ct, "body": rpBody(classOf(ct)), "framing": []string{"length", "chunked"}[rng.Intn(2)],
+						// every other scenario: the same function parses a later, different reply before the first response is read
+						"then_body": []string{"", "LATER-REPLY-LATER-REPLY-LATER-REPLY-LATER-REPLY"}[len(scenarios)%2]}})
 				metas[id] = meta{o, s, ct, false}
 			}
 		}
@@ -466,7 +468,7 @@ func runC13(r *Report, rng *rand.Rand, thorough bool) {
 		}
 	}
 	pcases.WriteTo(r)
-	r.Rule = "operations with 1-4 declared responses over {200, 201, 404, 500, 2XX, 4XX, 5XX, default} x 0-3 media types each from {application/json, vendor +json (3), hal+json, yaml (2), xml (2), unparsable (2), structured-syntax +xml (2)} (two fixed witnesses and common shapes first), generated client compiled; Parse<Op>Response called on synthesized replies: statuses {200,201,204,299,404,418,500,503} x every declared media type + application/json (+charset) + text/html, and every declared pair answered once with a status only that response matches best (every typed field of the response type must be filled by some declared reply); replies framed with Content-Length or chunked, and replies to HEAD requests (announced length, empty body); observed = which typed fields are non-nil, raw body and status; typed request builders (JSON, vendor JSON, form, text) checked for Content-Type and encoding; non-trivial = a declared pair is expected with several responses declared"
+	r.Rule = "operations with 1-4 declared responses over {200, 201, 404, 500, 2XX, 4XX, 5XX, default} x 0-3 media types each from {application/json, vendor +json (3), hal+json, yaml (2), xml (2), unparsable (2), structured-syntax +xml (2)} (two fixed witnesses and common shapes first), generated client compiled; Parse<Op>Response called on synthesized replies: statuses {200,201,204,299,404,418,500,503} x every declared media type + application/json (+charset) + text/html, and every declared pair answered once with a status only that response matches best (every typed field of the response type must be filled by some declared reply); replies framed with Content-Length or chunked, every other response inspected only after the same function has parsed a later reply, and replies to HEAD requests (announced length, empty body); observed = which typed fields are non-nil, raw body and status; typed request builders (JSON, vendor JSON, form, text) checked for Content-Type and encoding; non-trivial = a declared pair is expected with several responses declared"
 }
 
 // rpRepresentative: a status that the named response matches and no more specific declared response does (0 if none).
